@@ -66,6 +66,8 @@ var records = []string{
 	"@ 300 IN RRSIG A 8 2 300 20300101000000 20200101000000 12345 @ AAECAwQFBgcICQoLDA0ODw==",
 	"@ 300 IN DNSKEY 256 3 8 AwEAAcNEU67LJI5GEgF9QLNqLO1SMq1EdoQ6E9f85ha0k0ewQGCblyW2836GiVsm6k8Kr5ECIoMJ6fZWf3CQSQ9ycWfTyOHfmI3eQ/1Covhb2y4bAmL/07PhrL7ozWBW3wBfM335Ft9xjtXHPy7ztCbV9qZ4TVDTW/Iyg0PiwgoXVesz",
 	"@ 300 IN APL 1:192.168.32.0/21 !1:192.168.38.0/28", "@ 300 IN IPSECKEY 10 1 2 192.0.2.38 AQNRU3mG7TVTO2BkR47usntb102uFJtugbo6BSGvgqt4AQ==",
+	// every order of owner / class / TTL the grammar allows
+	"cf IN 300 A 192.0.2.7", "cf2 CH 60 TXT \"class first\"", "cf3 IN A 192.0.2.8", "cf4 A 192.0.2.9", "cf5 600 A 192.0.2.10", " IN 300 AAAA 2001:db8::7", " A 192.0.2.11",
 }
 
 var soa = []string{
@@ -76,8 +78,12 @@ const plantedLine = "bad 300 IN A 999.1.1.1"
 
 func genLines(r interface{ IntN(int) int }, n int, includes []string, damage bool, tier string) []string {
 	var out []string
-	if r.IntN(2) == 0 {
+	switch r.IntN(8) {
+	case 0, 1, 2, 3:
 		out = append(out, soa...)
+	case 4:
+		// the very first record carries its class before its TTL, or no TTL at all
+		out = append(out, []string{"first IN 300 A 192.0.2.1", "first IN A 192.0.2.1", "first CH 5 TXT \"x\""}[r.IntN(3)])
 	}
 	for i := 0; i < n; i++ {
 		switch x := r.IntN(100); {
